@@ -261,7 +261,7 @@ fn sym(v: &[i64]) -> Vec<i64> {
   a
 }
 
-fn linear_units<'a>(civ: &'a Civil) -> Vec<(Lin<'a>, Vec<i64>, Vec<i64>)> {
+fn linear_units<'a>(civ: &'a Civil, lt: &'a crate::refmodel::lunar::LunTable) -> Vec<(Lin<'a>, Vec<i64>, Vec<i64>)> {
   // (unit, states, alphabet)
   let mut v: Vec<(Lin, Vec<i64>, Vec<i64>)> = Vec::new();
   v.push((
@@ -358,6 +358,64 @@ fn linear_units<'a>(civ: &'a Civil) -> Vec<(Lin<'a>, Vec<i64>, Vec<i64>)> {
     (0..6_000_000).step_by(9973).collect(),
     sym(&[1, 2, 365, 1_000_000]),
   ));
+  // lunar months: ordinal = position in the lunation table (model order)
+  let nl = lt.l.len() as i64;
+  v.push((
+    Lin {
+      unit: "LunarMonth",
+      lo: 0,
+      hi: nl - 1,
+      fmt: Box::new(move |o| lt.l[o as usize].key()),
+      step: Box::new(move |o, a, b| {
+        let l = lt.l[o as usize];
+        let m = LunarMonth::from_ym(l.y as isize, l.m as isize).next(a as isize).next(b as isize);
+        lt.pos(m.get_year(), m.get_month_with_leap()).map(|p| p as i64)
+      }),
+    },
+    (0..nl).collect(),
+    sym(&[1, 12, 13, 25]),
+  ));
+  // solar terms: ordinal = 24 * year + index
+  v.push((
+    Lin {
+      unit: "SolarTerm",
+      lo: 0,
+      hi: 24 * 10000 + 23,
+      fmt: Box::new(|o| format!("{}#{}", o / 24, o % 24)),
+      step: Box::new(|o, a, b| {
+        let t = SolarTerm::from_index((o / 24) as isize, (o % 24) as isize).next(a as isize).next(b as isize);
+        Some(24 * t.get_year() as i64 + t.get_index() as i64)
+      }),
+    },
+    (24..24 * 10000).step_by(5).collect(),
+    sym(&[1, 23, 24, 25, 1000]),
+  ));
+  // fortunes: ordinal = index of the decade / yearly fortune of a fixed child limit
+  for (bi, birth) in [(1989isize, 12usize, 31usize, 23usize, true), (2024, 3, 3, 12, false), (1583, 1, 1, 0, true)].into_iter().enumerate() {
+    let mk_cl = move || tyme4rs::tyme::eightchar::ChildLimit::from_solar_time(SolarTime::from_ymd_hms(birth.0, birth.1, birth.2, birth.3, 7, 17), if birth.4 { tyme4rs::tyme::enums::Gender::MAN } else { tyme4rs::tyme::enums::Gender::WOMAN });
+    v.push((
+      Lin {
+        unit: ["DecadeFortune#0", "DecadeFortune#1", "DecadeFortune#2"][bi],
+        lo: -30,
+        hi: 60,
+        fmt: Box::new(|o| format!("index {}", o)),
+        step: Box::new(move |o, a, b| Some(tyme4rs::tyme::eightchar::DecadeFortune::from_child_limit(mk_cl(), o as isize).next(a as isize).next(b as isize).get_index() as i64)),
+      },
+      (-5..=12).collect(),
+      sym(&[1, 2, 7, 13]),
+    ));
+    v.push((
+      Lin {
+        unit: ["Fortune#0", "Fortune#1", "Fortune#2"][bi],
+        lo: -30,
+        hi: 120,
+        fmt: Box::new(|o| format!("index {}", o)),
+        step: Box::new(move |o, a, b| Some(tyme4rs::tyme::eightchar::Fortune::from_child_limit(mk_cl(), o as isize).next(a as isize).next(b as isize).get_index() as i64)),
+      },
+      (-5..=70).collect(),
+      sym(&[1, 2, 10, 59]),
+    ));
+  }
   // day-level units on boundary dates of the windows; the full date x step space is C01's
   let mut dates: Vec<i64> = Vec::new();
   for (ya, yb) in [(1i32, 2i32), (1582, 1583), (2023, 2025), (9998, 9999)] {
@@ -527,7 +585,8 @@ pub fn run(ctx: &Ctx) {
     }
   });
   ctx.subspace(&format!("{} cyclic types: every element x 15 step counts x all pairs; from_index over -2size..3size; from_name of every published name; every name of every other cycle ({} distinct names) + near misses refused", cs.len(), pool.len()), done, cs.len() as u64);
-  let units = linear_units(&civ);
+  let lt = crate::refmodel::lunar::LunTable::build(ctx, 0, 9999);
+  let units = linear_units(&civ, &lt);
   let max_inst = civ.len() as i64 * 86400 - 86401;
   for (l, states, alpha) in &units {
     let scaled = l.unit.starts_with("LunarHour");
@@ -574,7 +633,8 @@ pub fn replay(ctx: &Ctx, args: &[String]) {
       check_cycle(ctx, c, &pool, &mut l);
     }
     _ => {
-      let units = linear_units(&civ);
+      let lt = crate::refmodel::lunar::LunTable::build(ctx, 0, 9999);
+      let units = linear_units(&civ, &lt);
       let (u, _, _) = units.iter().find(|u| u.0.unit == args[1]).expect("unit");
       let n: Vec<i64> = args[2..].iter().filter_map(|a| a.parse().ok()).collect();
       println!("replay C11 unit {} value {} steps {} then {}", u.unit, (u.fmt)(n[0]), n[1], n[2]);
